@@ -5,6 +5,8 @@ a set `ts` only mutate Binding / AttributeSet objects that occur in `ts` or are 
 binding's value is an identifier, the binding the reference resolves to).
 -/
 namespace Nima
+-- name tokens are compared by spelling in this file (see `NameCmp` in Model/Edit.lean)
+attribute [local instance] NameCmp.spelled
 
 open Node EditM
 
